@@ -220,9 +220,30 @@ def run_shard(ctx):
         o2 = call(u.json_b64decode, o.value)
         if not o2.ok or not _json_equal(o2.value, h):
             ctx.violation("json-roundtrip", f"json_b64decode(json_b64encode(h)) != h for h={h!r}: {o2!r} {o2.value!r}", {"f": "json", "h": h})
+        elif rng.random() < 0.5:
+            # the decoded object is the caller's: whatever happens to it, decoding the same text again returns an equal object
+            _scribble(o2.value)
+            o3 = call(u.json_b64decode, o.value if rng.random() < 0.5 else o.value.decode("ascii"))
+            ctx.count("json_decoded_again")
+            if not o3.ok or not _json_equal(o3.value, h):
+                ctx.violation("json-roundtrip-after-caller-modified-earlier-result", f"second json_b64decode of the same text returns {str(o3.value)[:150]!r} for h={h!r} "
+                              "(the caller had modified the object returned by the first call)", {"f": "json", "h": h})
         ctx.count("json_roundtrip")
         ctx.nontrivial(("json", h))
     ctx.sample({"roundtrip": "00ff -> " + b64u_enc(b"\x00\xff"), "bad": "QQ+Q / QQ=Q / len 5", "int": "256**k-1, 256**k, 256**k+1"})
+
+
+def _scribble(obj, depth=0):
+    if isinstance(obj, dict):
+        for v in list(obj.values()):
+            if depth < 6:
+                _scribble(v, depth + 1)
+        obj["c19-scribble"] = 1
+    elif isinstance(obj, list):
+        for v in obj:
+            if depth < 6:
+                _scribble(v, depth + 1)
+        obj.append("c19-scribble")
 
 
 def _json_equal(a, b):
